@@ -227,11 +227,12 @@ CHECKS["C14"] = {
         H("c14.VH_clock", {}, {}, covers=_c14, validate=False), H("c14.VH_dns_rules", {}, {}, covers=_c14),
         H("c14.VH_winbox", {}, {}, covers=_c14, weight=3), H("c14.VH_winbox_romon", {}, {}, covers=_c14, weight=3), H("c14.VH_winbox_user", {}, {}, covers=_c14, weight=3),
         H("c14.VH_openvpn_plain_tcp", {}, {}, covers=_c14), H("c14.VH_openvpn_plain_udp", {}, {}, covers=_c14), H("c14.VH_rdp_negreq", {}, {}, covers=_c14, weight=2), H("c14.VH_rdp_corrinfo", {}, {}, covers=_c14, weight=3),
+        H("c14.VH_openvpn_auth_tcp", {}, {}, covers=_c14, weight=2), H("c14.VH_openvpn_auth_udp", {}, {}, covers=_c14, weight=2), H("c14.VH_openvpn_auth_ts_udp", {}, {}, covers=_c14, weight=2),
     ],
     "level_text": "bounded model checking against reference predicates written from the wire definitions (not from the matcher code): for every complete first message within the bound the real Match must accept every well-formed message that satisfies the configured filters and reject every message that violates a mandatory field or a filter; regions the definitions leave open are don't-care",
-    "level_note": "decided for ssh, xmpp, proxy_protocol, socks4 (commands/ports/CIDRs), socks5 (method lists), regexp (cross-checks the engine's NFA model against a direct byte predicate), wireguard (+zero filter), postgres (SSLRequest, v3 startup, version and length violations), isHttp, not, remote_ip/local_ip (concrete v4/v6/v4-mapped addresses at CIDR boundaries), clock (symbolic second of day, 4 window/zone configurations incl. swap and 24:00), dns rule combination (class/type/name symbolic over a finite set; the third-party wire parser is replaced under the engine, the native twin packs and parses a real query), winbox single-chunk auth messages (user names of 1-5 bytes incl. the +r suffix, modes, user-name filter, parity, framing), openvpn plain mode over TCP and UDP, rdp connection requests carrying only an rdpNegReq (flags/protocol rules). Not decided: openvpn auth/crypt/crypt2 modes, multi-chunk winbox, rdp cookies/tokens/correlation info (their parsers are covered for safety/round-trip by C04/C18 and for fragmentation by C06), http beyond the request-line heuristic, quic",
+    "level_note": "decided for ssh, xmpp, proxy_protocol, socks4 (commands/ports/CIDRs), socks5 (method lists), regexp (cross-checks the engine's NFA model against a direct byte predicate), wireguard (+zero filter), postgres (SSLRequest, v3 startup, version and length violations), isHttp, not, remote_ip/local_ip (concrete v4/v6/v4-mapped addresses at CIDR boundaries), clock (symbolic second of day, 4 window/zone configurations incl. swap and 24:00), dns rule combination (class/type/name symbolic over a finite set; the third-party wire parser is replaced under the engine, the native twin packs and parses a real query), winbox single-chunk auth messages (user names of 1-5 bytes incl. the +r suffix, modes, user-name filter, parity, framing), openvpn plain mode over TCP and UDP, openvpn tls-auth mode without a key over TCP and UDP (HMAC size set, replay packet id, the +-15 s net_time window against the symbolic clock incl. its nanosecond boundary), rdp connection requests carrying only an rdpNegReq (flags/protocol rules) or rdpNegReq + rdpCorrelationInfo (id rules; CR allowed at two id positions), socks5 with an unsorted method list. Not decided: openvpn crypt/crypt2 modes and HMAC verification, multi-chunk winbox, rdp cookies/tokens (their parsers are covered for safety/round-trip by C04/C18 and for fragmentation by C06), http beyond the request-line heuristic, quic",
     "assumptions": ["dns.Msg.Unpack/Len replaced by a scripted result (one question, class/type/name from a finite set)", "clock: wrap time pinned through the replacer key l4.conn.wrap_time"],
-    "outside": ["openvpn auth/crypt/crypt2, multi-chunk winbox, rdp cookie/token/correlation-info reference predicates", "net/http, quic-go, miekg/dns wire parsing", "time-zone database (only fixed offsets and UTC)"],
+    "outside": ["openvpn crypt/crypt2 and keyed tls-auth, multi-chunk winbox, rdp cookie/token reference predicates", "net/http, quic-go, miekg/dns wire parsing", "time-zone database (only fixed offsets and UTC)"],
     "bounds": {"quick": "message lengths: ssh 8, xmpp 54, proxy_protocol 16, socks4 10, socks5 8, regexp 6, wireguard 150, postgres 14, isHttp 24", "thorough": "same"},
 }
 
